@@ -122,17 +122,30 @@ theorem dump_exon_ids_functional (s s' : PrintersState) (hinv : StInv s.st) (cal
   rw [z]
   exact f
 
-/-- **reference exon ids survive printing**: with the storage of the pipeline, a written feature line whose
-    exon has the (functional) reference id `id` carries `id` -/
-theorem dump_reference_exon_ids_preserved (dist : IdDistributor) (feats : List RefFeature) (chr : Str)
-    (hchr : chr.isEmpty = false) (f : RefFeature) (hf : f ∈ feats) (id : Str) (hid : refId f = some id)
-    (hfun : RefFunctionalAt chr feats f) (pm pe : List Str) (calls : List DumpCall) (outs : List (List OutLine))
+/-- **reference exon ids survive printing**: with the storage of the pipeline (reference records of every feature
+    type), a written feature line whose interval has the (functional) reference exon id `id` carries `id` -/
+theorem dump_reference_exon_ids_preserved (dist : IdDistributor) (recs : List RefRecord) (chr : Str)
+    (hchr : chr.isEmpty = false) (f : RefRecord) (hf : f ∈ recs) (hft : f.ofType = true) (id : Str)
+    (hid : recId f = some id)
+    (hfun : RecFunctionalAt chr recs f) (pm pe : List Str) (calls : List DumpCall) (outs : List (List OutLine))
     (s' : PrintersState)
-    (h : runDumps ⟨FeatureIdStorage.init dist (some feats) chr, pm, pe⟩ calls = some (outs, s')) :
-    ∀ p ∈ outKeyIds outs.flatten, p.1 = refKey chr f → p.2 = id := by
+    (h : runDumps ⟨FeatureIdStorage.initRecords dist (some recs) chr, pm, pe⟩ calls = some (outs, s')) :
+    ∀ p ∈ outKeyIds outs.flatten, p.1 = recKey chr f → p.2 = id := by
   obtain ⟨⟨ks, ids, g, _, z⟩, _⟩ := runDumps_is_history calls _ s' outs h
   rw [z]
-  exact exon_id_reference_preserved dist feats chr hchr f hf id hid hfun ks ids s'.st g
+  exact exon_id_reference_preserved dist recs chr hchr f hf hft id hid hfun ks ids s'.st g
+
+/-- **no written line reuses a reference id for another interval**: whatever both printers write (exon lines and the
+    CDS / codon / UTR lines of `other_features`), a line whose interval owns no reference id (no `exon` record with an
+    `exon_id` there) carries an id that occurs on NO reference record of the chromosome, of any feature type -/
+theorem dump_no_reference_exon_id_collision (dist : IdDistributor) (recs : List RefRecord) (chr : Str)
+    (hchr : chr.isEmpty = false) (pm pe : List Str) (calls : List DumpCall) (outs : List (List OutLine))
+    (s' : PrintersState)
+    (h : runDumps ⟨FeatureIdStorage.initRecords dist (some recs) chr, pm, pe⟩ calls = some (outs, s')) :
+    ∀ p ∈ outKeyIds outs.flatten, p.1 ∉ refExonKeys chr recs → p.2 ∉ allRefIds recs := by
+  obtain ⟨⟨ks, ids, g, _, z⟩, _⟩ := runDumps_is_history calls _ s' outs h
+  rw [z]
+  exact fresh_exon_id_avoids_reference dist recs chr hchr ks ids s'.st g
 
 /-- **a gene line is written at most once per output file**, over any sequence of dump calls: the gene ids
     of the gene lines of each printer are pairwise distinct (and new with respect to what it had printed) -/
@@ -146,13 +159,14 @@ theorem dump_gene_lines_unique (st : FeatureIdStorage) (calls : List DumpCall) (
 
 -- non-vacuity: two dumps on the same printer with a shared gene and a shared exon, one on the other printer
 example :
-    (runDumps ⟨FeatureIdStorage.init SimpleIDDistributor.init (some [⟨10, 20, ['+'], some ["E1".toList]⟩]) ['c'], [], []⟩
+    (runDumps ⟨FeatureIdStorage.initRecords SimpleIDDistributor.init
+        (some [⟨true, 10, 20, ['+'], some ["E1".toList]⟩, ⟨false, 12, 18, ['+'], some ["c.1".toList]⟩]) ['c'], [], []⟩
       [⟨false, ['c'], [], [⟨['c'], ['+'], ['t', '1'], ['g'], [(10, 20), (30, 40)], []⟩]⟩,
        ⟨false, ['c'], [], [⟨['c'], ['+'], ['t', '2'], ['g'], [(30, 40)], [(30, 40, "CDS".toList)]⟩]⟩,
        ⟨true, ['c'], [], [⟨['c'], ['-'], ['t', '3'], ['g'], [(30, 40)], []⟩]⟩]).map
       (fun r => (r.1.map (fun o => (outGeneIds o).map String.ofList),
                  (outKeyIds r.1.flatten).map (fun p => String.ofList p.2)))
-    = some ([["g"], [], ["g"]], ["E1", "c.1", "c.1", "c.1", "c.2"]) := by decide
+    = some ([["g"], [], ["g"]], ["E1", "c.2", "c.2", "c.2", "c.3"]) := by decide
 
 /-- **transcript lines = valid models, each exactly once**: one dump call writes a transcript line for every
     model that passes `validate_exons` and for nothing else (a permutation: genes are reordered by region) -/
